@@ -483,6 +483,12 @@ pub fn entries() -> Vec<Entry> {
 		("C15", "RwLockWriteRef", "WRef"),
 		("C15", "PoisonRef<MutexRef>", "PoisonRef<'static, MRef>"),
 		("C15", "PoisonRef<RwLockReadRef>", "PoisonRef<'static, RRef>"),
+		// a duplicated key-less hold survives `unlock*` of the key-holding guard it came from: the key comes back
+		// while a hold is live (C14), besides the data staying reachable after the hold ended (C15)
+		("C14", "MutexRef (a hold that outlives the key-holding guard)", "MRef"),
+		("C14", "RwLockReadRef (a hold that outlives the key-holding guard)", "RRef"),
+		("C14", "RwLockWriteRef (a hold that outlives the key-holding guard)", "WRef"),
+		("C14", "PoisonRef<RwLockReadRef> (a hold that outlives the key-holding guard)", "PoisonRef<'static, RRef>"),
 		("C14", "MutexGuard", "happylock::mutex::MutexGuard<'static, i32, parking_lot::RawMutex>"),
 		("C14", "RwLockReadGuard", "happylock::rwlock::RwLockReadGuard<'static, i32, parking_lot::RawRwLock>"),
 		("C14", "RwLockWriteGuard", "happylock::rwlock::RwLockWriteGuard<'static, i32, parking_lot::RawRwLock>"),
